@@ -57,6 +57,7 @@ class WriteSite:
         return f"{self.member.qual} [{self.kind} {self.target}]"
 
     sig: str = ""  # what is written, independent of the names of temporaries: 'key' | .attr | call .m | *
+    origin: str = ""  # for a Shared root: the expression(s) the written object comes from (locals resolved), ' | '-joined
 
     @property
     def class_key(self) -> str:
@@ -335,6 +336,17 @@ def _param_freshness(repo: Repo, m: Member, param: str) -> Optional[str]:
     return out if n_sites else None
 
 
+def _origin(fn: ast.AST, root: ast.AST) -> str:
+    """Where the written object comes from: the root with the function's locals substituted (every may-value)."""
+    from .stmts import resolver
+
+    try:
+        vals = resolver(fn, multi=True)(ast.Name(id=root.id, ctx=ast.Load()) if isinstance(root, ast.Name) else root)
+    except Exception:
+        return u(root)
+    return " | ".join(sorted({u(v) for v in vals})) or u(root)
+
+
 def inventory(repo: Repo) -> List[WriteSite]:
     sites: List[WriteSite] = []
     _ret_cache: Dict[Tuple[int, str], Optional[str]] = {}
@@ -384,8 +396,9 @@ def inventory(repo: Repo) -> List[WriteSite]:
                 pc = _param_freshness(repo, m, r.id)
                 if pc is not None:
                     cls = pc
+            origin = _origin(m.node, r) if cls == "Shared" else ""
             for sg in _signatures(kind, target, node, m.node):
-                sites.append(WriteSite(m, kind, u(target), rt, cls, getattr(node, "lineno", 0), sg))
+                sites.append(WriteSite(m, kind, u(target), rt, cls, getattr(node, "lineno", 0), sg, origin))
 
         for n in ast.walk(m.node):
             if isinstance(n, (ast.Assign, ast.AnnAssign)):
@@ -403,7 +416,7 @@ def inventory(repo: Repo) -> List[WriteSite]:
                     # `x += ...` mutates in place when x is an array/list that is not fresh
                     c = fr.classify(n.target)
                     if c != "Fresh":
-                        sites.append(WriteSite(m, "augstore", n.target.id, n.target.id, c, n.lineno, "augstore " + n.target.id))
+                        sites.append(WriteSite(m, "augstore", n.target.id, n.target.id, c, n.lineno, "augstore " + n.target.id, _origin(m.node, n.target) if c == "Shared" else ""))
             elif isinstance(n, ast.Delete):
                 for t in n.targets:
                     if isinstance(t, (ast.Subscript, ast.Attribute)):
